@@ -186,11 +186,37 @@ let entry_line (l : string) : unit =
               | Invalid_argument m -> print_endline m)
        | _ -> print_endline "?")
   | _ -> print_endline "?"
+(* ---- per-thread state (Model/C05Thread.v) ----
+     TN                  -> a freshly spawned thread: AUTOMATON_BUILDERS = [(3, new(3))], BUFFERS empty;        "ok"
+     TF d                -> FstDictionary::fuzzy_match(word, d, _) on that thread (two build_dfa calls); prints the
+                            distance of the builder that served it (observable: the largest edit distance among
+                            the results of a word that has neighbours at every distance)
+     TD|src cps|tgt cps  -> edit_distance_min_alloc(src, tgt, BUFFERS) on that thread (through WithinEditDistance);
+                            prints the distance, or "P" *)
+let th_builders = ref drv_builders_init
+let th_bufs : (n list * n list) ref = ref ([], [])
+let thread_line l =
+  if String.length l >= 2 && l.[1] = 'N' then (th_builders := drv_builders_init; th_bufs := ([], []); print_endline "ok")
+  else if String.length l >= 2 && l.[1] = 'F' then
+    (match ints_of_line (String.sub l 2 (String.length l - 2)) with
+     | [d] -> (match drv_fuzzy_served (nat_of_int d) !th_builders with
+               | Ok (s, v) -> th_builders := v; print_endline (string_of_int (int_of_nat s))
+               | Panic _ -> print_endline "P")
+     | _ -> print_endline "?")
+  else if String.length l >= 2 && l.[1] = 'D' then
+    (match String.split_on_char '|' l with
+     | [_; a; b] ->
+         (match drv_ed (text_of_line a) (text_of_line b) !th_bufs with
+          | Ok (d, bufs) -> th_bufs := bufs; print_endline (string_of_int (int_of_n d))
+          | Panic _ -> print_endline "P")
+     | _ -> print_endline "?")
+  else print_endline "?"
 let () =
   iter_lines (fun l ->
     if String.length l = 0 then print_newline () else
     if String.length l >= 2 && l.[0] = 'E' && l.[1] <> ' ' then entry_line l else
     match l.[0] with
+    | 'T' -> thread_line l
     | 'S' when String.length l >= 2 && l.[1] = 'N' ->
         (* SN cap -> a new SpellCheck: empty word cache of capacity cap (read from spell_check.rs) *)
         lru_cap := (match ints_of_line (String.sub l 2 (String.length l - 2)) with [c] -> c | _ -> 10000);
